@@ -1,5 +1,6 @@
 """Child process of the C09 check: rebuild designs from their IR and print digests of their RTLIL.
-Usage: python -m vf.c09_driver <designs.json>   ->  JSON list of [sha256(emit_src=False), sha256(second conversion), sha256(emit_src=True)]"""
+Usage: python -m vf.c09_driver <designs.json>   ->  JSON list of [sha256(emit_src=False), sha256(rebuilt and converted again), sha256(emit_src=True), port names,
+sha256 of three conversions of one design object (the third after creating a Simulator on it)]"""
 import hashlib
 import json
 import sys
@@ -17,10 +18,18 @@ def main():
             t2 = c09.convert_design(d, emit_src=False)
             t3 = c09.convert_design(d, emit_src=True)
             h = lambda t: hashlib.sha256(t.encode()).hexdigest()
+            # the same design object elaborated again, and once more after a simulator was created on it
+            from amaranth.back import rtlil
+            from amaranth.sim import Simulator
+            top, outs = c09.build_conv(d)
+            s1 = rtlil.convert(top, ports=outs, emit_src=False)
+            s2 = rtlil.convert(top, ports=outs, emit_src=False)
+            Simulator(top)
+            s3 = rtlil.convert(top, ports=outs, emit_src=False)
             ports = [ln.split()[-1] for ln in t1.splitlines() if ln.strip().startswith("wire") and (" input " in ln or " output " in ln)][:40]
-            out.append([h(t1), h(t2), h(t3), ports])
+            out.append([h(t1), h(t2), h(t3), ports, h(s1), h(s2), h(s3)])
         except Exception as e:
-            out.append(["EXC:" + type(e).__name__ + ":" + str(e)[:100]] * 3 + [[]])
+            out.append(["EXC:" + type(e).__name__ + ":" + str(e)[:100]] * 3 + [[]] + ["EXC"] * 3)
     print(json.dumps(out))
 
 
